@@ -34,6 +34,8 @@ PUBLIC_OPENERS = [
     ("dryocstream::DryocStream", "pull_to_vec"),
 ]
 
+MULTI_CONFIG = True
+
 EXPLANATION = (
     "Static AUTH/PROV analysis on the MIR of every function from which a Poly1305 tag comparison is "
     "reachable. For each such Result-returning function every definition of the return place that can "
